@@ -45,13 +45,15 @@ class Table:
     Data Class for Table
     """
 
-    def __init__(self, name: str, schema: Schema = Schema(), **kwargs):
+    def __init__(self, name: str, schema: Optional[Schema] = None, **kwargs):
         """
         :param name: table name
         :param schema: schema as defined by :class:`Schema`
         """
         if "." not in name:
-            self.schema = schema
+            # default schema is looked up when the table is created, a default argument would be evaluated once at
+            # import time and miss DEFAULT_SCHEMA set afterwards
+            self.schema = schema if schema is not None else Schema()
             self.raw_name = escape_identifier_name(name)
         else:
             schema_name, table_name = name.rsplit(".", 1)
